@@ -17,11 +17,14 @@ int vf_rc_check(const char* name, vf_prop_fn fn, void* ctx, unsigned maxLen) {
 	using namespace rc;
 	if (maxLen < 8)
 		maxLen = 8;
-	const unsigned l1 = maxLen < 24 ? maxLen : 24;
-	const unsigned l2 = maxLen < 96 ? maxLen : 96;
-	const unsigned l3 = maxLen < 400 ? maxLen : 400;
+	// length classes scale with the harness's maximum: short tapes give minimal cases and cheap
+	// shrinking, long ones let geometry-heavy decoders reach their later choices
+	auto cap = [&](unsigned v) { return v < maxLen ? v : maxLen; };
+	const unsigned l1 = cap(maxLen / 64 > 24 ? maxLen / 64 : 24);
+	const unsigned l2 = cap(maxLen / 12 > 96 ? maxLen / 12 : 96);
+	const unsigned l3 = cap(maxLen / 3 > 400 ? maxLen / 3 : 400);
 	auto lenGen = gen::mapcat(gen::resize(100, gen::inRange<unsigned>(0, 100)), [=](unsigned cat) {
-		unsigned hi = cat < 35 ? l1 : cat < 65 ? l2 : cat < 90 ? l3 : maxLen;
+		unsigned hi = cat < 20 ? l1 : cat < 50 ? l2 : cat < 80 ? l3 : maxLen;
 		return gen::resize(100, gen::inRange<unsigned>(0, hi + 1));
 	});
 	auto tapeGen = gen::mapcat(lenGen, [](unsigned n) {
